@@ -79,9 +79,13 @@ SurvivorsE(cands, order, mini, eps) ==
                     Tail(order), mini, eps)
 
 Sel0 == [kind |-> "none", pop |-> <<>>, mini |-> <<>>, eps |-> FALSE, cands |-> <<>>, parts |-> <<>>,
-         order |-> <<>>, fresh |-> FALSE, has |-> FALSE, prevbest |-> 0, wins |-> 0]
+         orders |-> <<>>, has |-> FALSE, prevbest |-> 0, wins |-> 0]
 
 RemoveOne(s, id) == LET k == SMin({i \in DOMAIN s : s[i].id = id}) IN DropAt(s, k)
+
+SurvivesFor(s, w, order) == \E i \in DOMAIN SurvivorsE(s.cands, order, s.mini, s.eps) :
+                                SurvivorsE(s.cands, order, s.mini, s.eps)[i].id = w.id
+UsableOrders(s, w) == {k \in DOMAIN s.orders : SurvivesFor(s, w, s.orders[k])}
 
 WinClause(s, ev) ==
     LET w == ev.ind IN
@@ -93,10 +97,9 @@ WinClause(s, ev) ==
     ELSE
         IF ~(\E i \in DOMAIN s.pop : s.pop[i].id = w.id) THEN "C17:not-member"
         ELSE IF ~(\E i \in DOMAIN s.cands : s.cands[i].id = w.id) THEN "C17:too-many-copies"
-        ELSE IF Len(s.cands) > 1 /\ Len(s.mini) > 0 /\ ~s.fresh THEN "C17:no-fresh-shuffle"
-        ELSE IF Len(s.cands) > 1 /\ Len(s.mini) > 0 /\
-                ~(\E i \in DOMAIN SurvivorsE(s.cands, s.order, s.mini, s.eps) :
-                      SurvivorsE(s.cands, s.order, s.mini, s.eps)[i].id = w.id) THEN "C17:not-survivor"
+        \* some shuffled order that has not served an earlier winner (orders may also be drawn in advance)
+        ELSE IF Len(s.cands) > 1 /\ Len(s.mini) > 0 /\ s.orders = <<>> THEN "C17:no-fresh-shuffle"
+        ELSE IF Len(s.cands) > 1 /\ Len(s.mini) > 0 /\ UsableOrders(s, w) = {} THEN "C17:not-survivor"
         ELSE "ok"
 
 C17Clause(s, ev) ==
@@ -112,8 +115,12 @@ Eff(s, ev) ==
     CASE ev.e = "selstart" -> [Sel0 EXCEPT !.kind = ev.kind, !.pop = ev.pop, !.mini = ev.mini,
                                             !.eps = (ev.kind = "lexicase" /\ ev.eps), !.cands = ev.pop]
       [] ev.e = "draw"    -> [s EXCEPT !.parts = Append(s.parts, ev.ind)]
-      [] ev.e = "shuffle" -> [s EXCEPT !.order = ev.order, !.fresh = TRUE]
-      [] ev.e = "win"     -> [s EXCEPT !.parts = <<>>, !.fresh = FALSE, !.wins = s.wins + 1,
+      [] ev.e = "shuffle" -> [s EXCEPT !.orders = Append(s.orders, ev.order)]
+      [] ev.e = "win"     -> [s EXCEPT !.parts = <<>>, !.wins = s.wins + 1,
+                                       !.orders = IF s.kind = "lexicase" /\ s.orders # <<>>
+                                                  THEN (IF UsableOrders(s, ev.ind) # {} THEN DropAt(s.orders, SMin(UsableOrders(s, ev.ind)))
+                                                        ELSE Tail(s.orders))
+                                                  ELSE s.orders,
                                        !.cands = IF s.kind = "lexicase" /\ (\E i \in DOMAIN s.cands : s.cands[i].id = ev.ind.id)
                                                  THEN RemoveOne(s.cands, ev.ind.id) ELSE s.cands]
       [] ev.e = "genfit"  -> [s EXCEPT !.has = TRUE, !.prevbest = SeqMax(ev.fits)]
